@@ -21,6 +21,8 @@ type verifStream struct {
 	ctx     context.Context
 	got     [][]byte
 	stalled bool
+	failing bool // the connection broke: every Send returns an error
+	sends   int
 	hang    chan struct{}
 }
 
@@ -29,6 +31,10 @@ func (s *verifStream) Send(r *spyv1.SubscribeSignedVAAResponse) error {
 	if s.stalled {
 		<-s.hang // the client stopped reading: the send never completes
 		return errors.New("stream closed")
+	}
+	s.sends++
+	if s.failing {
+		return errors.New("transport is closing")
 	}
 	s.got = append(s.got, r.VaaBytes)
 	return nil
@@ -48,12 +54,20 @@ func VerifC20_Delivery() {
 	nvaa := zzverif.Len("nvaa", 1, 2, 3)
 	stalledSub := zzverif.Len("stalledSub", 9, 0, 1, 2) // 9: nobody stalls
 	zzverif.Assume(stalledSub == 9 || stalledSub < nsub)
+	// one subscriber's connection may be broken instead: its first Send fails (the client went away without the stream's
+	// context having been cancelled yet), its handler returns, and its subscription must go with it
+	failSub := 9
+	if stalledSub == 9 {
+		failSub = zzverif.Len("failSub", 9, 0, 1)
+		zzverif.Assume(failSub == 9 || failSub < nsub)
+	}
 	s := newSpyServer(zap.NewNop())
 	streams := make([]*verifStream, nsub)
 	filters := make([][]verifFilter, nsub)
 	cancels := make([]context.CancelFunc, nsub)
 	refused := make([]bool, nsub)
 	outOfRange := false
+	publishing := false
 	for i := 0; i < nsub; i++ {
 		nf := zzverif.Len("nfilters", 0, 1, 2)
 		req := &spyv1.SubscribeSignedVAARequest{}
@@ -72,11 +86,11 @@ func VerifC20_Delivery() {
 		}
 		ctx, cancel := context.WithCancel(context.Background())
 		cancels[i] = cancel
-		streams[i] = &verifStream{ctx: ctx, stalled: i == stalledSub, hang: make(chan struct{})}
+		streams[i] = &verifStream{ctx: ctx, stalled: i == stalledSub, failing: i == failSub, hang: make(chan struct{})}
 		st := streams[i]
 		i := i
 		go func() {
-			if err := s.SubscribeSignedVAA(req, st); err != nil && st.ctx.Err() == nil {
+			if err := s.SubscribeSignedVAA(req, st); err != nil && st.ctx.Err() == nil && !publishing {
 				refused[i] = true
 			}
 		}()
@@ -93,6 +107,7 @@ func VerifC20_Delivery() {
 	}
 	zzverif.Assert(len(s.subs) == nreg, "all-subscriptions-registered")
 
+	publishing = true
 	vaas := make([][]byte, nvaa)
 	emit := make([]verifFilter, nvaa)
 	for j := 0; j < nvaa; j++ {
@@ -104,8 +119,27 @@ func VerifC20_Delivery() {
 		zzverif.MustNotBlock(func() { perr = s.Publish(vaas[j]); zzverif.Settle() })
 		zzverif.Assert(perr == nil, "publish-ok")
 	}
+	if failSub != 9 && !refused[failSub] {
+		hit := len(filters[failSub]) == 0
+		for _, f := range filters[failSub] {
+			for j := 0; j < nvaa; j++ {
+				if f == emit[j] {
+					hit = true
+				}
+			}
+		}
+		if hit {
+			zzverif.Reach("send-failed")
+			zzverif.Assert(streams[failSub].sends == 1, "handler-returns-at-the-first-failed-send")
+			zzverif.Assert(len(s.subs) == nreg-1, "subscriber-whose-send-failed-is-removed")
+			if len(s.subs) == nreg-1 {
+				nreg--
+				refused[failSub] = true // gone: no longer counted below
+			}
+		}
+	}
 	for i := 0; i < nsub; i++ {
-		if i == stalledSub || refused[i] {
+		if i == stalledSub || i == failSub || refused[i] {
 			continue
 		}
 		for j := 0; j < nvaa; j++ {
@@ -141,7 +175,7 @@ func VerifC20_Delivery() {
 	zzverif.MustNotBlock(func() { ncancel(); zzverif.Settle() })
 	zzverif.Assert(len(s.subs) == nreg, "disconnected-subscription-removed")
 	// churn: the first subscriber leaves, a new one joins, and the remaining subscribers keep receiving
-	if stalledSub == 9 && !refused[0] {
+	if stalledSub == 9 && failSub == 9 && !refused[0] {
 		c0 := cancels[0]
 		zzverif.MustNotBlock(func() { c0(); zzverif.Settle() })
 		zzverif.Assert(len(s.subs) == nreg-1, "first-subscription-removed")
